@@ -12,7 +12,7 @@ import operator as _op
 import types
 import z3
 
-from .sym import (SInt, SBool, SId, Unsupported, ctx, have_ctx, lift, to_term, to_bterm, is_sym, snot, site,
+from .sym import (isi, SInt, SBool, SId, Unsupported, ctx, have_ctx, lift, to_term, to_bterm, is_sym, snot, site,
                   intern_id)
 from .folds import (Seq, Gen, GenToken, Cases, to_seq, has_abstract, seq_map, seq_filter, seq_sum, seq_len,
                     seq_any, seq_all, seq_or_list, merge, apply_generic)
@@ -22,14 +22,14 @@ _real = {n: getattr(_b, n) for n in dir(_b)}
 
 def _materialise(it):
     """iterable -> list (real) or Seq (when abstract)."""
-    if isinstance(it, Seq):
+    if isi(it, Seq):
         return it if it.abstract else it.concrete_list()
-    if isinstance(it, GenToken):
+    if isi(it, GenToken):
         return Seq([it])
-    if isinstance(it, (SymVec,)):
+    if isi(it, (SymVec,)):
         return list(it.items)
     items = _real["list"](it)
-    if any(isinstance(e, GenToken) for e in items):
+    if any(isi(e, GenToken) for e in items):
         return Seq(items)
     return items
 
@@ -66,7 +66,7 @@ class list_(list, metaclass=_TypeShimMeta):
 
     def __new__(cls, it=()):
         m = _materialise(it)
-        if isinstance(m, Seq):
+        if isi(m, Seq):
             return Seq(_real["list"](m))
         return _real["list"](m)
 
@@ -76,7 +76,7 @@ class tuple_(tuple, metaclass=_TypeShimMeta):
 
     def __new__(cls, it=()):
         m = _materialise(it)
-        if isinstance(m, Seq):
+        if isi(m, Seq):
             return Seq(_real["list"](m))
         return _real["tuple"](m)
 
@@ -86,7 +86,7 @@ class set_(set, metaclass=_TypeShimMeta):
 
     def __new__(cls, it=()):
         m = _materialise(it)
-        if isinstance(m, Seq) or any(_needs_symset(e) for e in m):
+        if isi(m, Seq) or any(_needs_symset(e) for e in m):
             return SymSet(to_seq(m))
         return _real["set"](m)
 
@@ -95,9 +95,9 @@ class dict_(dict, metaclass=_TypeShimMeta):
     __orig__ = dict
 
     def __new__(cls, *a, **k):
-        if a and not isinstance(a[0], dict):
+        if a and not isi(a[0], dict):
             m = _materialise(a[0])
-            if isinstance(m, Seq):
+            if isi(m, Seq):
                 raise Unsupported("dict() over an abstract sequence of pairs")
             if any(is_sym(p[0]) for p in m):
                 return SymDict(m)
@@ -157,11 +157,11 @@ class SymStr:
 
 
 def _needs_symset(e):
-    if is_sym(e) or isinstance(e, Cases):
+    if is_sym(e) or isi(e, Cases):
         return True
-    if isinstance(e, (int, str, bytes, float, type(None), bool)):
+    if isi(e, (int, str, bytes, float, type(None), bool)):
         return False
-    if isinstance(e, tuple):
+    if isi(e, tuple):
         return any(_needs_symset(x) for x in e)
     # objects of repository classes: their __hash__ would run on symbolic fields
     d = getattr(e, "__dict__", None)
@@ -173,12 +173,12 @@ def _needs_symset(e):
 def _obj_symbolic(o, depth):
     if depth > 3:
         return False
-    if is_sym(o) or isinstance(o, (Seq, Cases, GenToken)):
+    if is_sym(o) or isi(o, (Seq, Cases, GenToken)):
         return True
     d = getattr(o, "__dict__", None)
-    if isinstance(d, dict):
+    if isi(d, dict):
         return any(_obj_symbolic(v, depth + 1) for v in d.values())
-    if isinstance(o, (list, tuple)):
+    if isi(o, (list, tuple)):
         return any(_obj_symbolic(v, depth + 1) for v in o)
     return False
 
@@ -195,7 +195,7 @@ class SymSet:
             # each abstract family may declare its elements pairwise distinct under (hash, eq)
             total = 0
             for seg in s.segs:
-                if isinstance(seg, Gen):
+                if isi(seg, Gen):
                     if not getattr(seg.base, "distinct", False):
                         raise Unsupported("len(set()) over an abstract sequence not known to be duplicate free")
                     total = total + seq_len(Seq([seg]))
@@ -297,11 +297,11 @@ def map_(f, *its):
         return _real["map"](f, *its)
     if len(its) == 1:
         m = _materialise(its[0])
-        if isinstance(m, Seq):
+        if isi(m, Seq):
             return seq_map(f, m)
         return iter([f(x) for x in m])
     ms = [_materialise(i) for i in its]
-    if any(isinstance(m, Seq) for m in ms):
+    if any(isi(m, Seq) for m in ms):
         raise Unsupported("map over several iterables with an abstract one")
     return iter([f(*xs) for xs in _real["zip"](*ms)])
 
@@ -310,7 +310,7 @@ def filter_(p, it):
     if not have_ctx():
         return _real["filter"](p, it)
     m = _materialise(it)
-    if isinstance(m, Seq):
+    if isi(m, Seq):
         return seq_filter(p, m)
     out = []
     for x in m:
@@ -321,26 +321,26 @@ def filter_(p, it):
 
 def sum_(it, start=0):
     m = _materialise(it)
-    if isinstance(m, Seq):
+    if isi(m, Seq):
         return seq_sum(m, None, start)
     return _real["sum"](m, start)
 
 
 def len_(x):
-    if isinstance(x, Seq):
+    if isi(x, Seq):
         return seq_len(x)
-    if isinstance(x, SymSet):
+    if isi(x, SymSet):
         return x.distinct_count()
-    if isinstance(x, SymVec):
+    if isi(x, SymVec):
         return len(x.items)
-    if isinstance(x, (list, tuple)) and any(isinstance(e, GenToken) for e in x):
+    if isi(x, (list, tuple)) and any(isi(e, GenToken) for e in x):
         return seq_len(Seq(x))
     return _real["len"](x)
 
 
 def sorted_(it, key=None, reverse=False):
     m = _materialise(it)
-    if isinstance(m, Seq):
+    if isi(m, Seq):
         # S7: sorted returns a permutation of its input; the sequence is a bag from here on
         return Seq(_real["list"](m))
     return _real["sorted"](m, key=key, reverse=reverse)
@@ -348,7 +348,7 @@ def sorted_(it, key=None, reverse=False):
 
 def any_(it):
     m = _materialise(it)
-    if isinstance(m, Seq):
+    if isi(m, Seq):
         return seq_any(m)
     for x in m:
         if x:
@@ -358,7 +358,7 @@ def any_(it):
 
 def all_(it):
     m = _materialise(it)
-    if isinstance(m, Seq):
+    if isi(m, Seq):
         return seq_all(m)
     for x in m:
         if not x:
@@ -368,7 +368,7 @@ def all_(it):
 
 def _minmax(is_min, args, key=None, default=None):
     items = _materialise(args[0]) if len(args) == 1 else _real["list"](args)
-    if isinstance(items, Seq):
+    if isi(items, Seq):
         raise Unsupported("min/max over an abstract sequence")
     if key is not None or not any(is_sym(x) for x in items):
         f = _real["min"] if is_min else _real["max"]
@@ -392,7 +392,7 @@ def zip_(*its):
     if not have_ctx():
         return _real["zip"](*its)
     ms = [_materialise(i) for i in its]
-    if any(isinstance(m, Seq) for m in ms):
+    if any(isi(m, Seq) for m in ms):
         return SeqZip(ms)
     return iter(_real["list"](_real["zip"](*ms)))
 
@@ -409,7 +409,7 @@ class SeqZip:
 
 def enumerate_(it, start=0):
     m = _materialise(it)
-    if isinstance(m, Seq):
+    if isi(m, Seq):
         raise Unsupported("enumerate over an abstract sequence (positions are abstracted)")
     return _real["enumerate"](m, start)
 
@@ -419,7 +419,7 @@ def isinstance_(x, cls):
 
 
 def issubclass_(c, cls):
-    if isinstance(c, SymClass):
+    if isi(c, SymClass):
         return c.issub(cls)
     return _real["issubclass"](c, cls)
 
@@ -469,7 +469,7 @@ def hash_(x):
         parts = [hash_(e) for e in x]
         f = z3.Function(f"tuplehash{len(parts)}", *([z3.IntSort()] * (len(parts) + 1)))
         return lift(f(*[to_term(p) for p in parts]))
-    if isinstance(x, Seq):
+    if isi(x, Seq):
         raise Unsupported("hash of an abstract sequence")
     if tx is str and have_ctx() and getattr(ctx(), "symbolic_ids", False):
         return SInt(z3.Function("strhash", z3.IntSort(), z3.IntSort())(intern_id(x).t))
@@ -480,7 +480,7 @@ def hash_(x):
 
 
 def next_(it, *default):
-    if isinstance(it, Seq):
+    if isi(it, Seq):
         if it.abstract:
             raise Unsupported("next() on an abstract sequence")
         it = iter(it.concrete_list())
@@ -488,7 +488,7 @@ def next_(it, *default):
 
 
 def iter_(x, *a):
-    if isinstance(x, Seq) and x.abstract:
+    if isi(x, Seq) and x.abstract:
         raise Unsupported("iter() of an abstract sequence")
     return _real["iter"](x, *a)
 
@@ -531,7 +531,7 @@ class SymVec:
         self.items = list(items)
 
     def _ew(self, o, f):
-        if isinstance(o, SymVec):
+        if isi(o, SymVec):
             return SymVec([f(a, b) for a, b in _real["zip"](self.items, o.items)])
         return SymVec([f(a, o) for a in self.items])
 
@@ -575,16 +575,16 @@ class SymRows:
 
 def np_array(real_numpy):
     def array(obj, *a, **k):
-        if isinstance(obj, Seq) or (isinstance(obj, (list, tuple)) and _obj_symbolic(obj, 0)):
+        if isi(obj, Seq) or (isi(obj, (list, tuple)) and _obj_symbolic(obj, 0)):
             s = to_seq(obj)
             widths = set()
             for seg in s.segs:
-                e = seg.elem if isinstance(seg, Gen) else seg[1]
-                if isinstance(e, Cases):
+                e = seg.elem if isi(seg, Gen) else seg[1]
+                if isi(e, Cases):
                     for _, v in e._pairs:
-                        widths.add(len(v) if isinstance(v, tuple) else None)
+                        widths.add(len(v) if isi(v, tuple) else None)
                 else:
-                    widths.add(len(e) if isinstance(e, tuple) else None)
+                    widths.add(len(e) if isi(e, tuple) else None)
             if not s.segs:
                 # numpy.array([]).sum(axis=0) is the scalar 0.0
                 return _EmptyRows()
@@ -622,18 +622,18 @@ class _chain:
         for i in its:
             m = _materialise(i)
             out.extend(_real["list"](m))
-        return seq_or_list(out) if any(isinstance(e, GenToken) for e in out) else iter(out)
+        return seq_or_list(out) if any(isi(e, GenToken) for e in out) else iter(out)
 
     def from_iterable(self, its):
         m = _materialise(its)
-        if isinstance(m, Seq):
+        if isi(m, Seq):
             raise Unsupported("chain.from_iterable over an abstract sequence of sequences")
         return self(*m)
 
 
 def _compress(data, selectors):
     d, s = _materialise(data), _materialise(selectors)
-    if isinstance(d, Seq) or isinstance(s, Seq):
+    if isi(d, Seq) or isi(s, Seq):
         raise Unsupported("itertools.compress over abstract sequences")
     out = []
     for x, sel in _real["zip"](d, s):
@@ -644,14 +644,14 @@ def _compress(data, selectors):
 
 def _starmap(f, it):
     m = _materialise(it)
-    if isinstance(m, Seq):
+    if isi(m, Seq):
         return seq_map(lambda args: f(*args), m)
     return iter([f(*args) for args in m])
 
 
 def _reduce(f, it, *init):
     m = _materialise(it)
-    if isinstance(m, Seq):
+    if isi(m, Seq):
         raise Unsupported("functools.reduce over an abstract sequence")
     return _ft.reduce(f, m, *init)
 
